@@ -303,7 +303,17 @@ def r05e(ctx):
               key_detail="filter always applied", loc=ctx.loc("pyrex.signals", ff))
 
 
+def r05f(ctx):
+    """linearity and independence of history for function-backed signals: filter_frequencies appends to the inner lists of `_filters` in place,
+    so a sum or a copy that shared those lists with its operand would filter the operand too (H(a+b) != H(a)+H(b) afterwards).  C04's R04c
+    decides that copy/__add__ never share the component lists; reported here as well."""
+    from . import c04
+    from ._cross import relay
+    relay(ctx, "R05f", "a sum or copy of function-backed signals shares no filter list with its operands (= R04c): filtering one never filters the other", "C04", c04.r04c, "R04c", kind="N")
+
+
 def run(ctx):
+    ctx.guard(r05f)
     ctx.guard(r05a)
     ctx.guard(r05b)
     ctx.guard(r05c)
